@@ -246,6 +246,11 @@ func HarnessC18WriteMulti() {
 		fc = FuncCodeWriteMultipleCoils
 	}
 	n := vChoose(vParam("mlen", 9) + 1) // 0..mlen data bytes
+	if vParam("mbig", 0) == 1 {
+		// request sizes around the protocol limits: 123 registers = 251 data
+		// bytes, 124 = 253, 125 = 255, 126 = 257; 1968 coils = 251, 1969.. = 252
+		n = []int{251, 252, 253, 255, 257}[vChoose(5)]
+	}
 	data := vBytes(n)
 	req := append([]byte{}, data...)
 	p := &PDU{FunctionCode: fc, Data: data}
